@@ -217,6 +217,23 @@ def run(pid, tier, seed, replay):
         if rc != 0 or not ecases:
             ck.problem("tie", "Expr harness run ended abnormally rc=%d: %s" % (rc, se[-1500:]))
     cases += ecases
+    # ---- LogicalPlan *_with_subqueries traversals (oracle only): inspecting and transforming traversals must
+    # reach the same plan nodes for every kind of subquery expression
+    pcases = []
+    if not skip_expr:
+        okp, outp, dtp = vlib.cargo_build("h_expr", bin="c42p")
+        if not okp:
+            ck.problem("tie", "plan-subquery harness build failed:\n" + outp[-3000:])
+        else:
+            rc, so, se, dtp = vlib.run_bin("c42p", ["--seed", seed, "--n", 200 if tier == "quick" else 3000])
+            pcases = vlib.jsonl(so)
+            ck.log("plan-subquery harness: %d cases (%.1fs)" % (len(pcases), dtp))
+            if rc != 0 or not pcases:
+                ck.problem("tie", "plan-subquery harness ended abnormally rc=%d: %s" % (rc, se[-1500:]))
+            for c in pcases:
+                if not c["ok"]:
+                    ck.fail_input("LogicalPlan traversal with subqueries: " + c["why"], {"subquery_kinds": c["kinds"], "plan": c["plan"]})
+    ck.coverage["plan_subquery_cases"] = len(pcases)
     if not cases:
         ck.problem("tie", "harness produced no cases")
         return ck.finish()
